@@ -1,8 +1,10 @@
 (* LUExamples.v -- the LU model executed with exact arithmetic: over the rationals (Qc) and
    over the dual numbers on Qc (value + components indexed by nat).  Closed instances of the
-   hypotheses of the theorems (non-vacuity) and the witness refuting the full-strength solve
-   statement on uncertain elements: _lubksb's `elif sum != 0.0: ii = i`. *)
-From Coq Require Import ZArith List Bool Lia QArith Qcanon Ring.
+   over the dual numbers on Qc (value + components indexed by bool: two influences).  Closed
+   instances of the hypotheses of the theorems (non-vacuity), and the former counterexample of
+   the solve statement on uncertain elements (a right-hand side with value 0 that carries
+   uncertainty; _lubksb used to test `sum != 0.0`), which the repaired code solves. *)
+From Coq Require Import ZArith List Bool Lia QArith Qcanon Ring FunctionalExtensionality.
 From GTCV Require Import Num LU LUFacts DualRing.
 Import ListNotations.
 
@@ -30,47 +32,68 @@ Proof.
 Qed.
 
 Definition QcE : Elt :=
-  ring_elt Qc Qc Qcplus Qcmult Qcminus Qcinv qc_isz qc_ofZ qc_abs 0%Qc qc_gt qc_ge Qcmult qc_recip.
+  ring_elt Qc Qc Qcplus Qcmult Qcminus Qcinv qc_isz qc_isz qc_ofZ qc_abs 0%Qc qc_gt qc_ge Qcmult qc_recip.
 
 (* ---------------- dual numbers on the rationals ---------------- *)
-Notation DQ := (D Qc nat).
-Definition dq_add := dadd Qc nat Qcplus.
-Definition dq_mul := dmul Qc nat Qcplus Qcmult.
-Definition dq_sub := dsub Qc nat Qcminus.
-Definition dq_inv := dinv Qc nat Qcmult Qcopp Qcinv.
-Definition dq_isz := disz Qc nat qc_isz.
-Definition dq_ofZ (z : Z) : DQ := dconst Qc nat 0%Qc (qc_ofZ z).
+Notation DQ := (D Qc bool).
+Definition dq_add := dadd Qc bool Qcplus.
+Definition dq_mul := dmul Qc bool Qcplus Qcmult.
+Definition dq_sub := dsub Qc bool Qcminus.
+Definition dq_inv := dinv Qc bool Qcmult Qcopp Qcinv.
+Definition dq_isz := disz Qc bool qc_isz.
+Definition dq_skip (x : DQ) : bool := false.       (* an uncertain number is never a plain zero *)
+Definition dq_ofZ (z : Z) : DQ := dconst Qc bool 0%Qc (qc_ofZ z).
 Definition dq_abs (x : DQ) : Qc := qc_abs (fst x).
+Notation dq0 := (dO Qc bool 0%Qc).
+Notation dq1 := (dI Qc bool 0%Qc 1%Qc).
 
 Definition DQE : Elt :=
-  ring_elt DQ Qc dq_add dq_mul dq_sub dq_inv dq_isz dq_ofZ dq_abs 0%Qc qc_gt qc_ge Qcmult qc_recip.
+  ring_elt DQ Qc dq_add dq_mul dq_sub dq_inv dq_isz dq_skip dq_ofZ dq_abs 0%Qc qc_gt qc_ge Qcmult qc_recip.
 
-Lemma DQ_ring : ring_theory (dO Qc nat 0%Qc) (dI Qc nat 0%Qc 1%Qc) dq_add dq_mul dq_sub
-                            (dopp Qc nat Qcopp) (@eq DQ).
-Proof. exact (D_ring Qc nat 0%Qc 1%Qc Qcplus Qcmult Qcminus Qcopp Qcrt). Qed.
+Lemma DQ_ring : ring_theory dq0 dq1 dq_add dq_mul dq_sub (dopp Qc bool Qcopp) (@eq DQ).
+Proof. exact (D_ring Qc bool 0%Qc 1%Qc Qcplus Qcmult Qcminus Qcopp Qcrt). Qed.
 
-Lemma DQ_inv : forall y, dq_isz y = false -> dq_mul y (dq_inv y) = dI Qc nat 0%Qc 1%Qc.
-Proof. exact (D_inv Qc nat 0%Qc 1%Qc Qcplus Qcmult Qcminus Qcopp Qcinv qc_isz Qcrt qc_inv). Qed.
+Lemma DQ_inv : forall y, dq_isz y = false -> dq_mul y (dq_inv y) = dq1.
+Proof. exact (D_inv Qc bool 0%Qc 1%Qc Qcplus Qcmult Qcminus Qcopp Qcinv qc_isz Qcrt qc_inv). Qed.
 
-(* ---------------- checking the decomposition invariant by execution (rationals) ---------- *)
-Definition q_bsum := bsum Qc 0%Qc Qcplus.
+Lemma DQ_skip : forall y, dq_skip y = true -> y = dq0.
+Proof. discriminate. Qed.
 
-Definition dec_check (n : nat) (a lu : nat -> nat -> Qc) (idx : nat -> nat) : bool :=
-  forallb (fun t => Nat.leb t (idx t) && Nat.ltb (idx t) n) (seq 0 n) &&
-  forallb (fun i => forallb (fun j =>
-     qc_eqb (q_bsum (fun k => Qcmult (Lm Qc 0%Qc 1%Qc lu i k) (Um Qc 0%Qc lu k j)) n)
-            (perm_rows Qc idx n a i j)) (seq 0 n)) (seq 0 n).
+Definition dq_eqb (x y : DQ) : bool :=
+  qc_eqb (fst x) (fst y) && qc_eqb (snd x true) (snd y true) && qc_eqb (snd x false) (snd y false).
 
-Lemma dec_check_sound n a lu idx :
-  dec_check n a lu idx = true -> decomposes Qc 0%Qc 1%Qc Qcplus Qcmult n a lu idx.
+Lemma dq_eqb_eq x y : dq_eqb x y = true -> x = y.
 Proof.
-  unfold dec_check. rewrite andb_true_iff, !forallb_forall. intros [H1 H2]. split.
-  - intros t Ht. specialize (H1 t). rewrite in_seq in H1. specialize (H1 ltac:(lia)).
-    rewrite andb_true_iff, Nat.leb_le, Nat.ltb_lt in H1. lia.
-  - intros i j Hi Hj. specialize (H2 i). rewrite in_seq in H2. specialize (H2 ltac:(lia)).
-    rewrite forallb_forall in H2. specialize (H2 j). rewrite in_seq in H2.
-    specialize (H2 ltac:(lia)). now apply qc_eqb_eq.
+  unfold dq_eqb. rewrite !andb_true_iff. intros [[H1 H2] H3].
+  destruct x as [v f], y as [w g]; simpl in *. f_equal; [now apply qc_eqb_eq|].
+  apply functional_extensionality. intros [|]; now apply qc_eqb_eq.
 Qed.
+
+(* ---------------- checking the decomposition invariant by execution ---------------- *)
+Section DecCheck.
+  Variables (A : Type) (rO rI : A) (radd rmul : A -> A -> A) (eqb : A -> A -> bool).
+  Hypothesis eqb_eq : forall x y, eqb x y = true -> x = y.
+
+  Definition dec_check (n : nat) (a lu : nat -> nat -> A) (idx : nat -> nat) : bool :=
+    forallb (fun t => Nat.leb t (idx t) && Nat.ltb (idx t) n) (seq 0 n) &&
+    forallb (fun i => forallb (fun j =>
+       eqb (bsum A rO radd (fun k => rmul (Lm A rO rI lu i k) (Um A rO lu k j)) n)
+           (perm_rows A idx n a i j)) (seq 0 n)) (seq 0 n).
+
+  Lemma dec_check_sound n a lu idx :
+    dec_check n a lu idx = true -> decomposes A rO rI radd rmul n a lu idx.
+  Proof.
+    unfold dec_check. rewrite andb_true_iff, !forallb_forall. intros [H1 H2]. split.
+    - intros t Ht. specialize (H1 t). rewrite in_seq in H1. specialize (H1 ltac:(lia)).
+      rewrite andb_true_iff, Nat.leb_le, Nat.ltb_lt in H1. lia.
+    - intros i j Hi Hj. specialize (H2 i). rewrite in_seq in H2. specialize (H2 ltac:(lia)).
+      rewrite forallb_forall in H2. specialize (H2 j). rewrite in_seq in H2.
+      specialize (H2 ltac:(lia)). now apply eqb_eq.
+  Qed.
+End DecCheck.
+
+Definition q_check := dec_check Qc 0%Qc 1%Qc Qcplus Qcmult qc_eqb.
+Definition dq_check := dec_check DQ dq0 dq1 dq_add dq_mul dq_eqb.
 
 Definition qm (rows : list (list Z)) : nat -> nat -> Qc :=
   fun i j => qc_ofZ (nth j (nth i rows []) 0%Z).
@@ -82,7 +105,7 @@ Definition b3 := qv [3; 0; 5]%Z.
 
 Lemma ludcmp_a3 :
   match ludcmp QcE 3 a3 with
-  | Ok (lu, idx, par) => dec_check 3 a3 lu idx && negb (Nat.eqb (idx 0%nat) 0) = true
+  | Ok (lu, idx, par) => q_check 3 a3 lu idx && negb (Nat.eqb (idx 0%nat) 0) = true
   | Err _ => False
   end.
 Proof. vm_compute. reflexivity. Qed.
@@ -101,55 +124,62 @@ Lemma decomposes_a3 :
                      decomposes Qc 0%Qc 1%Qc Qcplus Qcmult 3 a3 lu idx.
 Proof.
   intros lu idx par H. pose proof ludcmp_a3 as C. rewrite H in C.
-  apply andb_true_iff in C. apply dec_check_sound. apply C.
+  apply andb_true_iff in C. apply (dec_check_sound Qc 0%Qc 1%Qc Qcplus Qcmult qc_eqb qc_eqb_eq). apply C.
 Qed.
 
-(* ---------------- the refutation on uncertain elements ---------------- *)
-(* a = [[2,1],[1,3]] (plain numbers), b = [u, 1] where u has value 0 and component 1 w.r.t.
-   influence 0.  No row exchange happens; _lubksb tests `sum != 0.0` on the VALUE of u, skips
-   it, and row 1 never subtracts lu[1,0]*u. *)
+(* ---------------- the former counterexample on uncertain elements ---------------- *)
+(* a = [[2,1],[1,3]], b = [u, 1] where u has value 0 and component 1 w.r.t. the first influence.
+   No row exchange happens.  _lubksb used to test `sum != 0.0` on the VALUE of u, skipped it,
+   and row 1 never subtracted lu[1,0]*u (residual component 1/2).  The repaired test skips only
+   plain-number zeros; the system is solved in value and in both components. *)
 Definition ra : nat -> nat -> DQ := fun i j => dq_ofZ (nth j (nth i [[2; 1]; [1; 3]]%Z []) 0%Z).
 Definition rb : nat -> DQ :=
   fun i => match i with
-           | O => (0%Qc, fun k => if Nat.eqb k 0 then 1%Qc else 0%Qc)
+           | O => (0%Qc, fun k : bool => if k then 1%Qc else 0%Qc)
            | _ => dq_ofZ 1
            end.
 
-Definition d_bsum := bsum DQ (dO Qc nat 0%Qc) dq_add.
+Definition d_bsum := bsum DQ dq0 dq_add.
 
-Lemma refute_compute :
-  match solve DQE 2 ra rb with
-  | Ok x =>
-      (* value of every residual is zero, but row 1 keeps the component 1/2 of influence 0 *)
-      qc_eqb (dval Qc nat (d_bsum (fun j => dq_mul (ra 0%nat j) (x j)) 2)) (dval Qc nat (rb 0%nat)) = true /\
-      qc_eqb (dval Qc nat (d_bsum (fun j => dq_mul (ra 1%nat j) (x j)) 2)) (dval Qc nat (rb 1%nat)) = true /\
-      this (dcomp Qc nat (d_bsum (fun j => dq_mul (ra 1%nat j) (x j)) 2) 0%nat) = (1 # 2)%Q /\
-      this (dcomp Qc nat (rb 1%nat) 0%nat) = 0%Q
+Lemma ludcmp_ra :
+  match ludcmp DQE 2 ra with
+  | Ok (lu, idx, par) => dq_check 2 ra lu idx = true
   | Err _ => False
   end.
-Proof. vm_compute. repeat split. Qed.
+Proof. vm_compute. reflexivity. Qed.
 
-Theorem solve_refuted :
-  exists (a : nat -> nat -> DQ) (b x : nat -> DQ),
-    solve DQE 2 a b = Ok x /\
-    (forall i, (i < 2)%nat ->
-               dval Qc nat (d_bsum (fun j => dq_mul (a i j) (x j)) 2) = dval Qc nat (b i)) /\
-    exists i k, (i < 2)%nat /\
-                dcomp Qc nat (d_bsum (fun j => dq_mul (a i j) (x j)) 2) k <> dcomp Qc nat (b i) k.
+Lemma decomposes_ra :
+  forall lu idx par, ludcmp DQE 2 ra = Ok (lu, idx, par) -> decomposes DQ dq0 dq1 dq_add dq_mul 2 ra lu idx.
 Proof.
-  pose proof refute_compute as C.
-  destruct (solve DQE 2 ra rb) as [x|e] eqn:E; [|contradiction].
-  destruct C as (C0 & C1 & C2 & C3).
-  exists ra, rb, x. split; [exact E|]. split.
-  - intros i Hi. destruct i as [|[|i]]; [now apply qc_eqb_eq | now apply qc_eqb_eq | lia].
-  - exists 1%nat, 0%nat. split; [lia|]. intros H. rewrite H in C2. rewrite C3 in C2. discriminate.
+  intros lu idx par H. pose proof ludcmp_ra as C. rewrite H in C.
+  now apply (dec_check_sound DQ dq0 dq1 dq_add dq_mul dq_eqb dq_eqb_eq).
 Qed.
 
-(* the same call is fine when the zero-valued element really is zero: exactness of the test
-   on the right-hand side is what the restricted theorem asks for *)
-Example rb_not_exact : dq_isz (rb 0%nat) = true /\ rb 0%nat <> dO Qc nat 0%Qc.
+(* the right-hand side that used to be skipped: value zero, not zero *)
+Example rb_not_exact : dq_isz (rb 0%nat) = true /\ rb 0%nat <> dq0.
 Proof.
   split; [reflexivity|]. intros H.
-  assert (E : snd (rb 0%nat) 0%nat = snd (dO Qc nat 0%Qc) 0%nat) by now rewrite H.
+  assert (E : snd (rb 0%nat) true = snd dq0 true) by now rewrite H.
   vm_compute in E. discriminate.
+Qed.
+
+Lemma solve_ra_ok : exists x, solve DQE 2 ra rb = Ok x /\ this (dcomp Qc bool (x 1%nat) true) = (-1 # 5)%Q.
+Proof.
+  assert (C : match solve DQE 2 ra rb with
+              | Ok x => this (dcomp Qc bool (x 1%nat) true) = (-1 # 5)%Q
+              | Err _ => False end) by (vm_compute; reflexivity).
+  destruct (solve DQE 2 ra rb) as [x|e]; [|contradiction]. eauto.
+Qed.
+
+Theorem solve_zero_valued_rhs :
+  exists x, solve DQE 2 ra rb = Ok x /\
+    forall i, (i < 2)%nat ->
+      dval Qc bool (d_bsum (fun j => dq_mul (ra i j) (x j)) 2) = dval Qc bool (rb i) /\
+      forall k, dcomp Qc bool (d_bsum (fun j => dq_mul (ra i j) (x j)) 2) k = dcomp Qc bool (rb i) k.
+Proof.
+  destruct solve_ra_ok as (x & E & _). exists x. split; [exact E|]. intros i Hi.
+  pose proof (solve_partial DQ Qc dq0 dq1 dq_add dq_mul dq_sub (dopp Qc bool Qcopp) dq_inv dq_isz dq_skip
+                            dq_ofZ dq_abs 0%Qc qc_gt qc_ge Qcmult qc_recip DQ_ring DQ_inv DQ_skip
+                            2 ra rb x decomposes_ra E i Hi) as H.
+  unfold d_bsum. rewrite H. split; [reflexivity|intros k; reflexivity].
 Qed.
